@@ -3,6 +3,11 @@
 import json, os, subprocess
 ROOT = os.path.dirname(os.path.dirname(os.path.abspath(__file__)))
 obl = json.load(open(os.path.join(ROOT, "lean/obligations.json")))
+regen = json.load(open(os.path.join(ROOT, "lean/regenerated.json")))
+REGEN = {}
+for mod, ms in regen["modules"].items():
+    for p in ms["properties"]:
+        REGEN.setdefault(p, []).append((mod, [n for n in ms["needs"]]))
 
 HOOK_COMMITS = ["8271f3e"]
 
@@ -44,6 +49,13 @@ for i in range(1, 21):
         note += " Not in the model: " + "; ".join(nim) + "."
     if partial:
         note += " Partial theorems: " + "; ".join(partial) + "."
+    technique = "machine-checked Lean 4 proof about a hand-written model + differential correspondence check of model against /repo"
+    text = TEXT[pid][0]
+    if pid in REGEN or pid in regen.get("skeleton_properties", {}):
+        fns = sorted({f for _, ns in REGEN.get(pid, []) for f in ns})
+        text += " Regenerated tie: on every run harness/go2lean translates " + (", ".join(fns) if fns else "the conversion functions' skeleton") + " from the current Go source to Lean and the theorems of " + ", ".join(m for m, _ in REGEN.get(pid, [])) + " prove the regenerated definitions equal to the model for all inputs" + (" (the conversions' skeleton - guard first, min length, early return, canonical loop, return value - is recognised by the translator)" if pid in regen.get("skeleton_properties", {}) else "") + "."
+        technique = "machine-checked Lean 4 proof about a hand-written model, tied to /repo twice: definitions regenerated from the Go source by a translator and proved equal to the model on every run + differential correspondence check of model against /repo"
+        note += " The translator (harness/go2lean) is trusted for the functions it translates; a function outside its fragment falls back on the correspondence run alone (escalated), a translated function that is no longer provably equal to the model is a broken proof obligation."
     checks.append({
         "property_id": pid,
         "quick_cmd": "./check %s --tier quick" % pid,
@@ -51,9 +63,9 @@ for i in range(1, 21):
         "evidence_file": "/verif/evidence/%s.json" % pid,
         "replay_cmd_template": "./check replay {path}",
         "engine": "lean4-proof+correspondence",
-        "level_claimed": {"category": "proof", "text": TEXT[pid][0], "design_ref": TEXT[pid][1]},
+        "level_claimed": {"category": "proof", "text": text, "design_ref": TEXT[pid][1]},
         "level_note": note,
-        "technique": "machine-checked Lean 4 proof about a hand-written model + differential correspondence check of model against /repo",
+        "technique": technique,
     })
 
 m = {
@@ -69,7 +81,7 @@ m = {
  "engines": [
   {"name": "lean4-proof+correspondence", "path": "/verif/check",
    "serves_properties": [c["property_id"] for c in checks],
-   "kind_free_text": "Lean 4 theorems about a hand-written executable model (lean/SignalModel, proofs in lean/SignalProofs); Go harness (harness/corr) runs the real code and the compiled Lean driver replays its transcript on the model and evaluates the property predicates on the implementation's observations"},
+   "kind_free_text": "Lean 4 theorems about a hand-written executable model (lean/SignalModel, proofs in lean/SignalProofs); Go->Lean translator (harness/go2lean) regenerating the numeric core into lean/SignalGen/Generated.lean with equivalence theorems in lean/SignalGen/Eq; Go harness (harness/corr) runs the real code and the compiled Lean driver replays its transcript on the model and evaluates the property predicates on the implementation's observations"},
  ],
  "checks": checks,
  "not_applicable": na,
